@@ -8,7 +8,7 @@ PARALLEL = {"C14live": 8}
 RETRY_FLAKY = ("C14live",)
 RULE = ("schedule(): every configuration of <=3 (quick) / <=4 (thorough) requests with priority<=2, procs 1..4 and <=3 machines "
         "with capacity<=4, load<=capacity, built by heap.Push in the listed order (exhaustive), plus random larger ones; "
-        "live manager: random offer/cancel/done(ok|remote|transport) sequences for machine sizes 1..4, max-load in "
+        "live manager: random offer/cancel/done(ok|remote|transport)/kill-machine sequences for machine sizes 1..4, max-load in "
         "{0,30,50,95,100,150}% and parallelism 1..12, observed at quiescence after every op and monitored by the Lean "
         "oracle (accounting, capacity, probation, nothing-grantable-left-waiting, machine-count bound); "
         "non-trivial = some request does not fit the first machine / sequence contains done or cancel")
@@ -41,6 +41,13 @@ def gen(r, tier, sub):
                 ms.append((c, r.rng(0, c)))
             yield "R %s M %s" % (" ".join("%d:%d" % x for x in rs), " ".join("%d:%d" % x for x in ms))
     else:
+        # directed: a machine is put on probation by a transport error and then stops; its capacity must be replaced
+        for mp, maxp in ((2, 4), (1, 3), (3, 6)):
+            offers = " ; ".join("offer %d 0 1" % i for i in range(maxp))
+            more = " ; ".join("offer %d 0 1" % (maxp + i) for i in range(maxp))
+            rest = " ; ".join("done %d ok" % i for i in range(1, maxp))
+            yield "P %d MAXP %d LOAD 100 ; %s ; done 0 transport ; kill m0 ; %s ; %s" % (mp, maxp, offers, rest, more)
+            yield "P %d MAXP %d LOAD 100 ; %s ; kill m0 ; done 0 transport ; %s ; %s" % (mp, maxp, offers, rest, more)
         n = 160 if tier == "quick" else 3000
         for _ in range(n):
             mp = r.rng(1, 4)
@@ -50,8 +57,13 @@ def gen(r, tier, sub):
             ops = []
             rid = 0
             live = []      # offered and possibly granted
+            kills = r.chance(1, 4)
             for _ in range(r.rng(3, 12)):
                 k = r.below(100)
+                if kills and live and k >= 92:
+                    # a machine stops (often right after it was put on probation by a transport error)
+                    ops.append("kill m%d" % r.below(2))
+                    continue
                 if k < 55 or not live:
                     procs = r.rng(1, machprocs) if r.chance(4, 5) else machprocs
                     ops.append("offer %d %d %d" % (rid, r.rng(0, 2), procs))
